@@ -6,14 +6,17 @@ TECH = ("bounded symbolic execution of the go/ssa of /repo (own interpreter) wit
         "assertion and schedule query; counterexamples replayed against the native build")
 NOTE = ("Trusted: the symgo interpreter and its models of reflect, sync, fmt, sort.SliceStable; the parser bridge "
         "(real ANTLR front end run natively on each concrete text); z3. Sampled path models are re-run natively and "
-        "must agree; every reported counterexample is replayed natively first.")
+        "must agree; every reported counterexample is replayed natively first. A thinned sample of each run's decided "
+        "queries is re-decided by z3 5.1 and cvc5 1.0 (any disagreement is exit 2). The instance families named in the "
+        "level text were widened in three rounds of seeded changes; DESIGN.md section 6 has the current shapes and "
+        "counts, section 9 the per-seed record.")
 
 CLAIMED = {
  "C06": "Decomposed into lemmas decided on the real code: exclusive ownership of an instance (C17 step), pairwise distinct data contexts, clean-up of the injected keys after each of the 24 pool entry points on normal return and rule error with the pool's apis kept, a result map that holds only this request's symbolic values, is complete at return in every interleaving (join query) and is not modified by the next request on the same instance; plus two overlapping requests (the first blocked inside a rule) each reading only its own data, race query on the result map and the data context maps.",
  "C07": "Pool (1,2) with version-tagged rules: an update (full with same / other names, incremental replace / add, removal, clear) lands while an execution is inside its first rule - triggered by that rule itself or performed by another goroutine while the rule is held - in 14 pool execution models on the initial and the additional instance; what ran must fit exactly one installed version, and after the update returned an execution forced onto each instance runs exactly the new version. Updates landing between engine-internal reads are covered by the race query of C19.",
  "C08": "Inductive step over builder containers: from an arbitrary container satisfying the representation invariant (0..3 rules, symbolic saliences, arbitrary non-increasing arrangement incl. ties, chosen by the solver) one full build, incremental build (every list of 1..2 existing / fresh names, symbolic saliences, every map order) or removal (every subset incl. absent names) re-establishes the invariant and yields exactly the denoted set (names, bodies by version tag, descriptions, saliences, identity of untouched rules, existence queries, sort-model order); plus two-step sequences and the base case.",
  "C10": "All five compile entry points are run from the installed state {a, b} (1) with the front end's outcome chosen by the harness as three symbolic booleans (lexer / grammar / listener error) delivered to whatever listeners the entry point registered, and (2) on a bounded family of concrete texts through the real front end (valid, stray characters, every token deleted / duplicated, duplicate and empty names, empty text): accept/reject must agree across entry points, a rejecting call must leave names, bodies and order untouched on master and instances, an accepting call must install the replaced / merged set. The clause 'returns normally on every byte string' is outside the claim (see notes).",
- "C16": "Inductive step over pool states: from each shape a history can leave a (1,2) pool in (instances sharing the master container, instances with own containers, cleared, after incremental, after full update; symbolic saliences) one of 11 management operations is applied; existence, count, salience, description and model queries must equal the denoted set and an execution forced onto the initial and onto the additional instance must run exactly it; plus clear / update / removal sequences; no path may panic.",
+ "C16": "Inductive step over pool states: from each shape a history can leave a (1,2) pool in (instances sharing the master container, instances with own containers, cleared, after incremental, after full update; symbolic saliences) one of 13 management operations is applied; existence, count, salience, description and model queries must equal the denoted set and an execution forced onto the initial and onto the additional instance must run exactly it; plus clear / update / removal sequences; no path may panic.",
  "C17": "Inductive step of getGengine and of the put goroutine from an arbitrary distribution of the instances of (1,2), (1,3), (2,3) pools over {own list, in flight} with arbitrarily rotated lists: a get hands out a listed instance never one in flight and removes it, with both lists empty it spins with state and locks unchanged (waits, does not fail), a put appends exactly that instance to its own list, the partition invariant is preserved; every one of the 24 pool entry points hands its instance back after normal return, rule error and a panic leaving the pool method.",
  "C19": "Race query (two conflicting accesses adjacent in some consistent interleaving of the extracted event structure) on gengine's own state - pool bookkeeping fields, result map, local maps, data context map, captured error slices, builder.Kc and the three container fields - for every concurrent engine model, two and three pool requests, a pool request concurrent with each management operation (full / incremental / removal / clear / model change / queries); each reported pair is confirmed under go test -race.",
  "C02": "140 (thorough 700) generated statement programs (depth <= 3: if / else-if chains / else, for, forRange over slice and map, break, continue, return at any depth, plain and compound assignments to locals and to an injected field) plus hand-written programs per clause are compiled by the real front end and executed symbolically; every branch condition is a fresh symbolic boolean or a comparison of locals, loop bounds are symbolic in [0,3]; trace of observer calls, returned value, final locals and final injected state must equal those of the same program emitted as Go code, for every path.",
